@@ -341,9 +341,16 @@ def run_model(orac, text, timeout=900):
 
 
 def run_impl(impl, text, timeout=900):
-    rc, o, e = vlib.sh([impl], inp="\n".join(text) + "\n", timeout=timeout,
-                       env={"ASAN_OPTIONS": "detect_leaks=0:abort_on_error=0", "UBSAN_OPTIONS": "print_stacktrace=1"})
-    return rc, o.split("\n"), e
+    for attempt in range(3):
+        try:
+            rc, o, e = vlib.sh([impl], inp="\n".join(text) + "\n", timeout=timeout,
+                               env={"ASAN_OPTIONS": "detect_leaks=0:abort_on_error=0", "UBSAN_OPTIONS": "print_stacktrace=1"})
+            return rc, o.split("\n"), e
+        except OSError:          # fork/exec refused on a loaded machine (EAGAIN/ENOMEM): not a verdict on the code under test
+            if attempt == 2:
+                raise
+            import time
+            time.sleep(1.0)
 
 
 def prepare_dir(d, case=None):
@@ -407,9 +414,9 @@ def cycle_ran(ilines_ops, case):
         try:
             for _ in cyc["sets"]:
                 next(it)
-            ok = ok and next(it).startswith("start ok=1")
+            ok = next(it).startswith("start ok=1") and ok          # always consume the line (no short-circuit)
             for _ in cyc["packets"]:
-                ok = ok and next(it).startswith("append ok=1")
+                ok = next(it).startswith("append ok=1") and ok
             if cyc["stop"]:
                 next(it)
         except StopIteration:
@@ -543,28 +550,41 @@ def simplify_candidates(case):
     """smaller variants of a case, most aggressive first"""
     n = len(case["cycles"])
     sw = case.get("sw")
+
+    def with_script(sc):
+        c = copy.deepcopy(case)
+        sc = list(sc)
+        while sc and sc[-1] == "f":
+            sc.pop()
+        if sc:
+            c["sw"] = sc
+        else:
+            c.pop("sw", None)
+            c.pop("sw_mode", None)
+        return c
     if sw:
-        def with_script(sc):
-            c = copy.deepcopy(case)
-            sc = list(sc)
-            while sc and sc[-1] == "f":
-                sc.pop()
-            if sc:
-                c["sw"] = sc
-            else:
-                c.pop("sw", None)
-                c.pop("sw_mode", None)
-            return c
         yield with_script([])                                  # is the script needed at all?
+    for i in range(n):                                         # whole cycles first: the largest steps
+        if n > 1:
+            c = copy.deepcopy(case)
+            del c["cycles"][i]
+            yield c
+    if sw:
+        short = [i for i, e in enumerate(sw) if e != "f"]
+        if len(short) > 1:
+            for i in short[:12]:                               # a single short count?
+                yield with_script(["f"] * i + [sw[i]])
         if len(sw) > 1:
             yield with_script(sw[:len(sw) // 2])
             yield with_script(["f"] * (len(sw) // 2) + sw[len(sw) // 2:])
-        for i, e in enumerate(sw):
-            if e != "f":
+        if len(short) > 1:
+            for i in short:
                 yield with_script(sw[:i] + ["f"] + sw[i + 1:])
         for i, e in enumerate(sw):
             if e not in ("f", "b1"):
                 yield with_script(sw[:i] + ["b1"] + sw[i + 1:])
+        if short and short[0] > 0:                             # the same short count one call earlier
+            yield with_script(sw[:short[0] - 1] + sw[short[0]:])
     for i in range(len(case.get("pre", []))):
         c = copy.deepcopy(case)
         del c["pre"][i]
@@ -573,11 +593,6 @@ def simplify_candidates(case):
         if len(f["data"]) > 64 and not f["data"].startswith(hx(b'{"old":"')):
             c = copy.deepcopy(case)
             c["pre"][i]["data"] = hx(b'{"old":"' + b"x" * 20 + b'"}')
-            yield c
-    for i in range(n):
-        if n > 1:
-            c = copy.deepcopy(case)
-            del c["cycles"][i]
             yield c
     for i in range(n):
         cyc = case["cycles"][i]
@@ -628,7 +643,10 @@ def minimise(ctx, impl, case, key, budget=160):
     d = os.path.join(ctx.bdir, "shrink")
 
     def fails(c):
-        rc, lines, e = run_single(impl, c, d)
+        try:
+            rc, lines, e = run_single(impl, c, d)
+        except OSError:
+            return False     # shrinking is best effort: a candidate that could not be run is not taken
         if key == "crash":
             return not lines or lines[-1] != "endcase"
         if not lines or lines[-1] != "endcase":
@@ -638,9 +656,14 @@ def minimise(ctx, impl, case, key, budget=160):
     cur = case
     tests = 0
     progress = True
-    while progress and tests < budget:
+    # shrinking is best effort and must not eat the tier's time: after the deadline a replay is written as found
+    deadline = ctx.t0 + (75 if ctx.tier == "quick" else 900)
+    import time
+    while progress and tests < budget and time.time() < deadline:
         progress = False
         for cand in simplify_candidates(cur):
+            if time.time() > deadline:
+                break
             tests += 1
             if fails(cand):
                 cur = cand
@@ -738,14 +761,19 @@ def fold(ctx, impl, orac, cases, results, origin):
         diffs = compare_case(case, d, il, ml)
         if diffs:
             detail = {"case": describe(case), "differences": diffs[:4], "origin": origin}
-            # which unrepaired variant of the model does the implementation agree with?
-            for name, fx in (("D6", (0, 1, 1)), ("D25", (1, 0, 1)), ("D26", (1, 1, 0)), ("D6+D25+D26", (0, 0, 0))):
+            # which unrepaired variant of the model does the implementation agree with?  (only for the few ties that are
+            # written out, and not when the pwrite calls themselves differ: no repair switch explains that)
+            what_ = ("the pwrite calls of the implementation differ from the model's file_write loop (TiffSw), the file bytes agree"
+                     if all(d_[0].startswith("pwrite calls") for d_ in diffs) else
+                     "file bytes written by the implementation differ from the Coq model (TiffEnc/SideBySide)")
+            explain = sum(1 for w_, _ in ctx.broken if w_ == what_) < 3 and not any(d_[0].startswith("pwrite calls") for d_ in diffs)
+            for name, fx in (("D6", (0, 1, 1)), ("D25", (1, 0, 1)), ("D26", (1, 1, 0)), ("D6+D25+D26", (0, 0, 0))) if explain else ():
                 rc, mo, _ = run_model(orac, case_text(case, cid, d, fixes=fx), timeout=120)
                 mlv = split_output(mo).get(str(cid), [])
                 if mlv and not compare_case(case, d, il, mlv):
                     detail["agrees_with"] = "the model with repair %s switched off (the code under test does not contain that fix)" % name
                     break
-            ctx.broken_tie("file bytes written by the implementation differ from the Coq model (TiffEnc/SideBySide)", detail)
+            ctx.broken_tie(what_, detail)
         else:
             ctx.traces_validated += 1
         # TiffDec (the Coq reader the theorems are about) against the independent Python reader, on the model's files
